@@ -10,10 +10,21 @@ use std::collections::HashSet;
 pub struct C14;
 
 const ALPHA: &[&str] = &["a", "\n", "é", "ℝ", "💣"];
+/// One more representative at the edges of every UTF-8 length class (lead bytes D0/DF, E0/EF, F0/F4).
+const ALPHA_EDGES: &[&str] = &["a", "\n", "д", "\u{7ff}", "\u{800}", "．", "\u{10000}", "\u{10ffff}"];
 
 fn check_doc(ctx: &mut Ctx, text: &str, all_pairs: bool) -> Result<bool, Failure> {
-    let case = json!({"text": text});
+    check_doc_pre(ctx, text, all_pairs, None)
+}
+
+/// `previous`: a text the document store already held for the same path (the file was loaded
+/// from disk before the editor opened it with a different buffer).
+fn check_doc_pre(ctx: &mut Ctx, text: &str, all_pairs: bool, previous: Option<&str>) -> Result<bool, Failure> {
+    let case = json!({"text": text, "previous": previous});
     let mut vfs = Vfs::new();
+    if let Some(p) = previous {
+        vfs.set_path_content(VfsPath::new("/d/src/a.gleam"), p.to_string());
+    }
     let file = vfs.set_path_content(VfsPath::new("/d/src/a.gleam"), text.to_string());
     let content = vfs.content_for_file(file);
     if &*content != text {
@@ -113,7 +124,7 @@ impl Property for C14 {
         "C14"
     }
     fn rule(&self) -> String {
-        "cases: ALL documents of <=6 (quick) / <=8 (thorough) symbols over {a, LF, é (2-byte), ℝ (3-byte), 💣 (4-byte, surrogate pair)} x every char boundary (offset->position->offset identity, strict monotonicity, agreement with an independent LSP client model) x every ordered pair of boundaries (client-side UTF-16 slice of the sent range == server's byte slice); plus proptest-generated documents of up to 3000 symbols (sampled pairs). evaluations = individual position and range conversions. Non-trivial = document with a multi-byte character and >= 2 lines; distinct by document hash.".into()
+        "cases: ALL documents of <=6 (quick) / <=8 (thorough) symbols over {a, LF, é (2-byte), ℝ (3-byte), 💣 (4-byte, surrogate pair)} and all documents one symbol shorter over an 8-symbol alphabet with a representative at both edges of every UTF-8 length class (U+0434, U+07FF, U+0800, U+FF0E, U+10000, U+10FFFF), a third of them installed over a different previous content of the same path x every char boundary (offset->position->offset identity, strict monotonicity, agreement with an independent LSP client model) x every ordered pair of boundaries (client-side UTF-16 slice of the sent range == server's byte slice); plus proptest-generated documents of up to 3000 symbols (sampled pairs). evaluations = individual position and range conversions. Non-trivial = document with a multi-byte character and >= 2 lines; distinct by document hash.".into()
     }
     fn assumptions(&self) -> Vec<String> {
         vec!["conversions are reached through the `verif` hook wrappers (glas::verif::{from_pos,to_range}) around the crate-private functions every handler uses".into()]
@@ -158,6 +169,47 @@ impl Property for C14 {
             }
         }
         ctx.space("documents up to max length over 5 symbols", total);
+        // the edge alphabet, one symbol shorter; every document also with a different previous content
+        let edge_len = max_len - 1;
+        let mut total2 = 0u64;
+        let mut prev_text = String::from("x\né💣\n");
+        for len in 0..=edge_len {
+            let n = (ALPHA_EDGES.len() as u64).pow(len as u32);
+            total2 += n;
+            let mut idx = vec![0usize; len];
+            for k in 0..n {
+                if ctx.mine(k) {
+                    let text: String = idx.iter().map(|&i| ALPHA_EDGES[i]).collect();
+                    let pre = if k % 3 == 0 { Some(prev_text.as_str()) } else { None };
+                    match check_doc_pre(ctx, &text, len <= 4, pre) {
+                        Ok(true) => {
+                            local.insert(hash_str(&text));
+                        }
+                        Ok(false) => {}
+                        Err(f) => ctx.fail(f),
+                    }
+                    if pre.is_some() {
+                        ctx.class("document replacing a different previous content of the same path");
+                    }
+                    if !text.is_empty() {
+                        prev_text = text;
+                    }
+                }
+                let mut p = len;
+                while p > 0 {
+                    p -= 1;
+                    idx[p] += 1;
+                    if idx[p] < ALPHA_EDGES.len() {
+                        break;
+                    }
+                    idx[p] = 0;
+                }
+                if ctx.stopped() {
+                    return;
+                }
+            }
+        }
+        ctx.space("documents over the 8-symbol class-edge alphabet", total2);
         ctx.stats.nt_disjoint += local.len() as u64;
         let cases = ctx.tier.pick(2_000, 50_000);
         ctx.run_streams("c14-long", cases, 3000, |ctx, bytes| {
@@ -176,6 +228,6 @@ impl Property for C14 {
         });
     }
     fn replay(&self, ctx: &mut Ctx, case: &Value) -> Result<(), Failure> {
-        check_doc(ctx, case["text"].as_str().unwrap_or(""), true).map(|_| ())
+        check_doc_pre(ctx, case["text"].as_str().unwrap_or(""), true, case["previous"].as_str()).map(|_| ())
     }
 }
